@@ -602,7 +602,21 @@ def r7_readers(ctx, res):
     for fname, want in SELECT_LISTS.items():
         sites = [s for s in ctx.sites if s.func.module.short == '_queries' and s.func.name == fname]
         if fname not in q.funcs:
-            raise AnalysisError(f'anchor vanished: wn._queries.{fname}')
+            # the statement may have moved into its caller (a private helper inlined): some function must still select exactly this row
+            moved = []
+            for s_ in ctx.sites:
+                if s_.func.module.short != '_queries':
+                    continue
+                for v_ in s_.variants:
+                    if v_.stmt is not None and v_.stmt.verb == 'SELECT':
+                        got_ = _canonical_select(ctx, v_.stmt)
+                        got_ = [g if not (want and want[0].startswith('$.')) else '$.' + g.split('.')[-1] for g in got_]
+                        if got_ == want:
+                            moved.append(s_)
+            if not moved:
+                raise AnalysisError(f'anchor vanished: wn._queries.{fname}')
+            res.inst(f'select-list:{fname}', moved[0].loc, f'{fname} is gone; the same row is selected by {sorted({m.func.name for m in moved})}')
+            continue
         for s in sites:
             for v in s.variants:
                 if v.stmt is None or v.stmt.verb != 'SELECT':
